@@ -282,6 +282,10 @@ def render_wire(cfg):
     sets = "".join("var %s = wire.NewSet(\n%s)\n\n" % (name, "".join("\t%s,\n" % m for m in members)) for name, members in lay["sets"])
     params = ", ".join("a%d %sA%d" % (a, P, a) for a in cfg["args"])
     rets = "(*%sT0, error)" % P if cfg["reterr"] else "*%sT0" % P
+    if sum(map(ord, cfg["name"])) % 3 == 0:
+        # the other common spelling of an injector body
+        inj = "func %s(%s) %s {\n\tpanic(wire.Build(\n%s\t))\n}\n" % (cfg["name"], params, rets, "".join("\t\t%s,\n" % t for t in lay["top"]))
+        return sets, inj
     inj = "func %s(%s) %s {\n\twire.Build(\n%s\t)\n\treturn %s\n}\n" % (cfg["name"], params, rets, "".join("\t\t%s,\n" % t for t in lay["top"]),
                                                                      "nil, nil" if cfg["reterr"] else "nil")
     return sets, inj
